@@ -89,3 +89,120 @@ def check_iterator_is_eager(ctx, rep):
     else:
         rep.bad("R-WHOCALLS", "R-WHOCALLS:parse_grid:collects-every-row-in-order", pg.where(), "rows are collected through %s" % chain)
     return n
+
+
+def check_iterator_fused_on_error(ctx, rep):
+    """draining the lazy row iterator terminates: an iterator that has yielded an error yields nothing more. After a lexer /
+    parser error the position in the input does not advance, so without this the same error comes out of every further `next()`
+    and `for row in rows` over a five-line text never ends. Structural form: (a) `next()` starts by testing a bool field of the
+    iterator and returns None, without touching the parser, when it is set; (b) from every block that builds a `Some(<Result>)`
+    that may be an `Err`, every way to the return passes the assignment of `true` to that field - edges that establish `Ok` (or
+    `None`) excepted"""
+    prog = ctx.prog
+    nx = next((b for b in prog.bodies.values() if b.short == "<" + D + "complex::grid::RowIterator as std::iter::Iterator>::next"), None)
+    if nx is None:
+        rep.gap("RowIterator::next", "-", "not found")
+        return 0
+    key = "row-iterator:fused-on-error"
+    # the flag: a bool field of *_1 assigned the constant true somewhere in next()
+    setters = {}
+    for bi in range(nx.n):
+        for st in nx.blocks[bi]["stmts"]:
+            if st["k"] == "assign" and st["lhs"]["l"] == 1 and len(st["lhs"]["p"]) == 2 and st["lhs"]["p"][0] == "*" and isinstance(st["lhs"]["p"][1], dict) and st["lhs"]["p"][1].get("ty") == "bool":
+                c = mir.op_const(st["rv"]["op"]) if st["rv"]["k"] == "use" else None
+                if c is not None and c.get("bool") is True:
+                    setters.setdefault(st["lhs"]["p"][1]["n"], set()).add(bi)
+    if not setters:
+        rep.bad("T-FUSE", "T-FUSE:" + key, nx.where(), "RowIterator::next never records that it has yielded an error: after an error the input position does not advance, so every further next() yields the same error and draining the iterator does not terminate")
+        return 1
+    parser_calls = [bi for bi, t in nx.calls() if "RowParser" in strip_generics(mir.callee_name(t) or "")]
+    ok_flag = None
+    why = "no entry test of the flag"
+    for fld, sblocks in setters.items():
+        # (a) entry guard: a switch on _1*.fld whose 'set' edge reaches the return without passing a parser call
+        guard = None
+        for bi in nx.rpo():
+            t = nx.term(bi)
+            if t["k"] == "switch" and repr(G.describe(nx, t["op"])) == "_1*.%s" % fld:
+                vals = {int(v): tb for v, tb in t["targets"]}
+                set_edge = t["otherwise"] if 0 in vals else vals.get(1)
+                guard = (bi, set_edge)
+                break
+        if guard is None:
+            continue
+        gb, set_edge = guard
+        # no parser call before the guard, none on the 'set' side
+        idom_ok = all(_dominates(nx, gb, pc) for pc in parser_calls)
+        seen, todo, touches = set(), [set_edge], False
+        while todo:
+            x = todo.pop()
+            if x in seen or nx.blocks[x].get("cleanup"):
+                continue
+            seen.add(x)
+            if x in parser_calls:
+                touches = True
+            todo.extend(nx.succ(x))
+        if not idom_ok or touches:
+            why = "the flag .%s is tested, but the parser is still asked when it is set" % fld
+            continue
+        # (b) every possibly-Err Some reaches the return only through the setter
+        leak = None
+        for bi in range(nx.n):
+            for st in nx.blocks[bi]["stmts"]:
+                if st["k"] == "assign" and st["rv"]["k"] == "agg" and st["rv"].get("variant") == "Some" and "Result<" in str(st["rv"].get("ty", "")):
+                    pay = mir.op_place(st["rv"]["ops"][0]) if st["rv"]["ops"] else None
+                    # a payload built as Ok(..) in place cannot be an Err
+                    if pay is not None and not pay["p"]:
+                        sd = nx.single_def(pay["l"])
+                        if sd and sd[1] != "term" and sd[2]["k"] == "agg" and sd[2].get("variant") == "Ok":
+                            continue
+                    seen2, todo2 = set(), [bi]
+                    while todo2 and leak is None:
+                        x = todo2.pop()
+                        if x in seen2 or x in sblocks or nx.blocks[x].get("cleanup"):
+                            continue
+                        seen2.add(x)
+                        t = nx.term(x)
+                        if t["k"] == "return":
+                            leak = bi
+                            break
+                        if t["k"] == "switch":
+                            d = G.describe(nx, t["op"])
+                            rd = repr(d)
+                            vals = {int(v): tb for v, tb in t["targets"]}
+                            if d.kind == "discr" and "Some.0" in rd:
+                                # discriminant of the payload: the Ok edge establishes that nothing failed
+                                nxt = [tb for v, tb in vals.items() if v != 0] + ([t["otherwise"]] if 0 in vals else [])
+                                # when only Err(1) is listed, `otherwise` is the Ok edge
+                                if 0 not in vals:
+                                    nxt = [tb for v, tb in vals.items() if v == 1]
+                                todo2.extend(nxt)
+                                continue
+                            sdd = nx.single_def(mir.op_place(t["op"])["l"]) if mir.op_place(t["op"]) is not None and not mir.op_place(t["op"])["p"] else None
+                            if sdd and sdd[1] != "term" and sdd[2]["k"] == "discr" and not sdd[2]["place"]["p"] and sdd[2]["place"]["l"] == st["lhs"]["l"] and str(sdd[2].get("adt", "")).endswith("option::Option"):
+                                # discriminant of the item itself, which was just built as Some: the None edge is not taken
+                                todo2.extend([tb for v, tb in vals.items() if v == 1] if 1 in vals else [t["otherwise"]])
+                                continue
+                        todo2.extend(nx.succ(x))
+        if leak is not None:
+            why = "a row result that may be an error (built at %s) reaches the return without the flag .%s being set" % (nx.where(leak), fld)
+            continue
+        ok_flag = fld
+        break
+    if ok_flag:
+        rep.ok("T-FUSE", key, nx.where(), "next() returns None once .%s is set, and sets it on every path that yields an Err" % ok_flag)
+    else:
+        rep.bad("T-FUSE", "T-FUSE:" + key, nx.where(), "RowIterator is not fused after an error (%s): draining it over a text with a bad row does not terminate" % why)
+    return 1
+
+
+def _dominates(body, a, b):
+    idom = body.idom()
+    x = b
+    while True:
+        if x == a:
+            return True
+        p = idom.get(x) if isinstance(idom, dict) else idom[x]
+        if p is None or p == x:
+            return False
+        x = p
